@@ -41,13 +41,15 @@ def main():
         with open(demo) as fp:
             src = fp.read()
         src = src.replace(os.path.dirname(os.path.dirname(demo)), wt)     # hard-coded worktree paths
+        src = src.replace("@WORKTREE@", wt)                               # demonstrations kept under seeded/
         with open(local_demo, "w") as fp:
             fp.write(src)
         # helper files shipped next to the demonstration (fake solvers, common code)
         for extra in os.listdir(os.path.dirname(demo)):
-            if extra.endswith(".py") and not extra.startswith("demo_A") and not extra.startswith("demo_B"):
+            if extra.endswith(".py") and not extra.startswith("demo_A") and not extra.startswith("demo_B") \
+                    and extra != os.path.basename(demo):
                 with open(os.path.join(os.path.dirname(demo), extra)) as fp:
-                    esrc = fp.read().replace(os.path.dirname(os.path.dirname(demo)), wt)
+                    esrc = fp.read().replace(os.path.dirname(os.path.dirname(demo)), wt).replace("@WORKTREE@", wt)
                 with open(os.path.join(wt, "_out", extra), "w") as fp:
                     fp.write(esrc)
         demo_orig = demo
